@@ -4,6 +4,7 @@
   `big.ParseFloat` / `big.Rat.SetString` are external parameters (see the model's header).
 -/
 import FFS.Model.EthTypes
+import FFS.Lemmas.Eip55
 namespace FFS.Props.C19
 open FFS FFS.Model.EthTypes
 
@@ -196,6 +197,12 @@ theorem address_roundtrip (a : Bytes) (h : a.length = 20) :
   constructor
   · rw [address_parse_iff]; exact ⟨by simp [address0xString, trim0x, hexDecode_hexEncode], h⟩
   · rw [address_parse_iff]; exact ⟨by simp [addressPlainString, trim0x_hexEncode, hexDecode_hexEncode], h⟩
+
+/-- **The checksum form is EIP-55**: for every 20-byte address, `AddressWithChecksum.String()` — the lower-case hex zipped
+    with the hex of its Keccak-256 hash, as the code computes it — is the EIP-55 spelling of the specification
+    (`Spec.Numeric.eip55`: a letter is upper-cased exactly when the hash nibble at its index is ≥ 8). -/
+theorem checksum_is_eip55 (a : Bytes) (h : a.length = 20) : addressChecksumString a = Spec.Numeric.eip55 a :=
+  FFS.Lemmas.Eip55.checksum_eq_eip55 a h
 
 /-! ### integers print as 0x-hex without leading zeros and parse back -/
 
